@@ -23,7 +23,7 @@ NAME_OF = z3.Function("name_of_node_found_at", S, S)  # absolute name of the nod
 
 T_OPS = [
     "T1 raw node protocol: move/copy/delete/get/`in` on the wrapped object are logged RAW effects; a moved or copied node keeps its kind (group / dataset); self[path].name is the absolute path",
-    "MetadorMeta(node)._base_dir = utils.to_meta_base_path(node.name, node is a dataset); TOCLinks.find_missing / repair_missing and MetadorNode._destroy_meta are call-logging stubs here (their contracts: specs/tocreg.py, specs/wrappers.py)",
+    "MetadorMeta(node)._base_dir = utils.to_meta_base_path(node.name, node is a dataset); TOCLinks.find_missing / repair_missing and MetadorNode._destroy_meta are call-logging stubs here; repair_missing (specs/tocreg.py RepairMissing), _destroy_meta / MetadorMeta._destroy (specs/wrappers.py, specs/metaread.py) and to_meta_base_path (specs/metapaths.py) are verified on their own, find_missing (a visit callback with four conditions) is exercised by the bounded tier",
 ]
 
 
